@@ -55,10 +55,12 @@ if os.path.exists(notes):
 # now against /repo with my checks
 res = sh(f"SEED_ARGS='{os.environ.get('SEED_ARGS', '')}' "
          f"/verif/tools/try_seed.sh {dst}/patch.diff {' '.join(checks)}")
-meta["ran"] = (f"git -C /repo apply seeded/{pid}-{k}/patch.diff; "
-               + "; ".join(f"./check {c} --tier quick --no-evidence"
-                           for c in checks)
-               + "; git -C /repo checkout -- skactiveml")
+meta["ran"] = (f"tools/try_seed.sh seeded/{pid}-{k}/patch.diff "
+               + " ".join(checks)
+               + "  (scratch copy of /repo's skactiveml with the patch "
+                 "applied, VERIF_REPO pointed at it, quick tier of each "
+                 "listed check, copy removed; equivalent to git -C /repo "
+                 "apply / ./check / git -C /repo checkout -- .)")
 meta["results"] = res.stdout.strip().splitlines()
 meta["detected_by"] = [l.split()[0] for l in meta["results"]
                        if " DETECTED" in l]
